@@ -45,29 +45,32 @@ From Gnmi Require Import Base.Prelude CTree.CTreeModel Pipeline.PipelineModel Pi
   Pipeline.PipelineProofs.
 
 (** relay_faithful: for every configuration (any number of targets), every
-    stream of every other target, EVERY schedule, every subscription to a
-    subtree of a configured target, and every conforming stream of that target
+    stream of every other target, EVERY schedule, every subscription request
+    with ANY NUMBER OF ENTRIES (each a glob-free subtree of a configured target;
+    the origin in the prefix or in the path of any entry -- [cq_paths cq], each
+    completing to one element of [Qrs]), and every conforming stream of that
+    target
     (any timestamps; updates the cache rejects as stale mixed with accepted ones
     and with deletes in one notification included):
     at quiescence the client holds exactly the target's final state under the
     configured name -- no missing, extra or stale leaf *)
 Theorem C01_relay_faithful :
-  forall (name : string) (Vals : tv -> Prop) (Q Qr : path)
+  forall (name : string) (Vals : tv -> Prop) (Qrs : list path)
          (cq : cquery) (s : list item) (cfg : config) (ss : streams) (sched : list action),
     (forall v : tv, Vals v -> to_scalar v <> None) ->
     (forall a b : tv, Vals a -> Vals b -> tv_equal a b = true -> to_scalar a = to_scalar b) ->
     (forall a b : tv, Vals a -> Vals b -> tv_eqb a b = true -> a = b) ->
-    Q = name :: Qr -> glob_free Q = true ->
-    sub_query cq = Q -> g_target (cq_prefix cq) = name ->
-    complete_path (cq_prefix cq) (cq_path cq) = Some Qr ->
-    stream_ok name Vals Q s ->
+    (forall Qr, In Qr Qrs -> glob_free Qr = true) ->
+    g_target (cq_prefix cq) = name ->
+    map (complete_path (cq_prefix cq)) (cq_paths cq) = map Some Qrs ->
+    stream_ok name Vals Qrs s ->
     validate cfg = true -> NoDup (keys (cf_targets cfg)) ->
     (forall n, In n (keys (cf_targets cfg)) -> is_glob n = false) ->
     In name (keys (cf_targets cfg)) ->
     NoDup (keys ss) -> assoc name ss = Some s ->
     (forall n' l, In (n', l) ss -> Forall (item_nometa n') l) ->
     exists l, pipeline cfg ss cq sched = VLeaves l /\
-              Permutation l (selects Q (stamp_paths name (replay s))).
+              Permutation l (selects_any (sub_queries cq) (stamp_paths name (replay s))).
 Proof. exact relay_faithful_all. Qed.
 Print Assumptions C01_relay_faithful.
 
@@ -75,8 +78,9 @@ Print Assumptions C01_relay_faithful.
     decimal value, a suppressed update, a subtree delete, an interleaved
     schedule; the resulting view has two leaves *)
 Theorem C01_relay_faithful_example :
-  exists l, pipeline RelayExample.cfg RelayExample.ss RelayExample.q RelayExample.sched = VLeaves l /\
-            Permutation l (selects ["dev1"] (stamp_paths "dev1" (replay RelayExample.s1))) /\
+  exists l, pipeline RelayExample.cfg RelayExample.ss RelayExample.q2 RelayExample.sched = VLeaves l /\
+            Permutation l (selects_any [["dev1"; "foo"]; ["dev1"; "openconfig"; "a"]]
+                             (stamp_paths "dev1" (replay RelayExample.s1))) /\
             List.length l = 2%nat.
 Proof. exact RelayExample.example. Qed.
 Print Assumptions C01_relay_faithful_example.
@@ -126,10 +130,9 @@ Theorem C01_kp_client_sound :
   forall i c q l,
     let name := g_target (cq_prefix q) in
     configured c name = true -> hyp_stream (stream_of c name) = true ->
-    hyp_query name (sub_query q) (stream_of c name) = true ->
-    complete_path (cq_prefix q) (cq_path q) <> None ->
+    hyp_queries name q (stream_of c name) = true ->
     kp_client i c q (OView (VLeaves l)) = [] ->
-    Permutation (drop_meta l) (spec_view c name (sub_query q)).
+    Permutation (drop_meta l) (spec_view c name (sub_queries q)).
 Proof. exact kp_client_sound. Qed.
 Print Assumptions C01_kp_client_sound.
 
@@ -168,6 +171,19 @@ Theorem C01_rejected_update_keeps_deletes :
     = [(["dev1"; "openconfig"; "a"; "y"], SInt 2)].
 Proof. exact Refuted.rejected_update_keeps_deletes. Qed.
 Print Assumptions C01_rejected_update_keeps_deletes.
+
+(** one request, two entries, origin in the path of the first entry (none in the
+    prefix): the entries are registered independently; what is streamed after
+    the sync under the second entry arrives (the class of seed_va) *)
+Theorem C01_relay_entries_example :
+  sub_queries RelayExample.q2 = [["dev1"; "foo"]; ["dev1"; "openconfig"; "a"]] /\
+  pipeline Refuted.cfg1 [("dev1", Refuted.s_entries)] RelayExample.q2
+      [AIngest "dev1"; AIngest "dev1"; ASubscribe; ASend; ASend; ASend; AIngest "dev1"; ASend; AIngest "dev1"]
+    = VLeaves [(["dev1"; "openconfig"; "a"; "x"], SInt 3)] /\
+  selects_any (sub_queries RelayExample.q2) (stamp_paths "dev1" (replay Refuted.s_entries))
+    = [(["dev1"; "openconfig"; "a"; "x"], SInt 3)].
+Proof. exact Refuted.entries_example. Qed.
+Print Assumptions C01_relay_entries_example.
 
 (** a stream failure while the client is subscribed: the second session re-sends
     only one leaf, edited, with a smaller timestamp; model and replay agree on
